@@ -29,6 +29,12 @@
 //	                           releases them together (same-snapshot overlap).  mode 1: a writer replaces
 //	                           the file while G triggers run, then one late trigger (stale-snapshot overlap)
 //
+//	await | hold               (kind=watcher only: header `kind=watcher ivl=<ms>`; `start` then also starts a
+//	                           LocalPubSub and the real ConfigWatcher, whose monitor goroutine calls Reload
+//	                           every ConfigReloadInterval of real time)  await: poll until the running config
+//	                           is the content on disk, then let two more reload calls pass;  hold: poll until
+//	                           the watcher made three more failing reload calls (`ticks=ok`, else `ticks=few`)
+//
 // obs of start/reload/reg:
 //
 //	su=<ok|warn|fail> err=<none|warn|fail|logged|-> ap=<cfgtok>/<rulestok>|- send=<s> rate=<r> n=<c0,c1,…>
@@ -55,6 +61,7 @@ import (
 	"github.com/honeycombio/refinery/internal/configwatcher"
 	kit "github.com/honeycombio/refinery/internal/verifkit"
 	"github.com/honeycombio/refinery/logger"
+	"github.com/honeycombio/refinery/pubsub"
 	"go.opentelemetry.io/otel/trace/noop"
 )
 
@@ -73,13 +80,17 @@ func depBlock(dep string) string {
 	}
 }
 
+// ivlLine is "" or the `ConfigReloadInterval` line of the running case (kind=watcher): the real
+// ConfigWatcher.monitor ticks on real time with that period.
+var ivlLine = ""
+
 func cfgBytes(tok, dep string) ([]byte, bool) {
 	p := strings.Split(tok, ":")
 	switch p[0] {
 	case "ok":
-		return []byte(fmt.Sprintf("General:\n  ConfigurationVersion: 2\nTraces:\n  SendDelay: %ss\n# %s\n", p[1], p[2])), true
+		return []byte(fmt.Sprintf("General:\n  ConfigurationVersion: 2\n%sTraces:\n  SendDelay: %ss\n# %s\n", ivlLine, p[1], p[2])), true
 	case "warn":
-		return []byte(fmt.Sprintf("General:\n  ConfigurationVersion: 2\nTraces:\n  SendDelay: %ss\n%s# %s\n", p[1], depBlock(dep), p[2])), true
+		return []byte(fmt.Sprintf("General:\n  ConfigurationVersion: 2\n%sTraces:\n  SendDelay: %ss\n%s# %s\n", ivlLine, p[1], depBlock(dep), p[2])), true
 	case "bad":
 		switch p[1] {
 		case "0":
@@ -149,7 +160,67 @@ func genRulesTok(r *kit.Rng, cur string) string {
 	}
 }
 
+// genWatcher: the real ConfigWatcher drives the reloads on its own timer.  valid change -> await;
+// then one or more rejected contents (each held for several ticks) -> a valid change -> await.
+func genWatcher(r *kit.Rng, tier string) kit.Case {
+	ls := 1 + r.Intn(3)
+	n := 0
+	okC := func() string { n++; return fmt.Sprintf("ok:%d:%d", 1+r.Intn(4), 200+n) }
+	okR := func() string { n++; return fmt.Sprintf("ok:%d:%d", 1+r.Intn(4), 200+n) }
+	ops := []string{"wc " + okC(), "wr " + okR(), "start"}
+	validChange := func() {
+		if r.Chance(50) {
+			ops = append(ops, "wc "+okC())
+		} else {
+			ops = append(ops, "wr "+okR())
+		}
+		ops = append(ops, "await")
+	}
+	validChange()
+	rounds := 1
+	if tier == "thorough" {
+		rounds = 1 + r.Intn(2)
+	}
+	for i := 0; i < rounds; i++ {
+		rej := 1 + r.Intn(2)
+		onCfg := r.Chance(50)
+		for j := 0; j < rej; j++ {
+			bad := fmt.Sprintf("bad:%d:%d", r.Intn(4), 1+r.Intn(4))
+			if r.Chance(20) {
+				bad = "gone"
+			}
+			if onCfg {
+				ops = append(ops, "wc "+bad)
+			} else {
+				ops = append(ops, "wr "+bad)
+			}
+			ops = append(ops, "hold")
+		}
+		// the repaired file (and sometimes only the other one first: still rejected)
+		if r.Chance(25) {
+			if onCfg {
+				ops = append(ops, "wr "+okR(), "hold")
+			} else {
+				ops = append(ops, "wc "+okC(), "hold")
+			}
+		}
+		if onCfg {
+			ops = append(ops, "wc "+okC())
+		} else {
+			ops = append(ops, "wr "+okR())
+		}
+		ops = append(ops, "await")
+		if r.Chance(40) {
+			ops = append(ops, "await") // nothing changed: no further notification
+		}
+	}
+	return kit.Case{Header: fmt.Sprintf("kind=watcher ivl=200 dep=prefix ver=none ls=%d", ls), Ops: ops}
+}
+
 func (comp) Gen(r *kit.Rng, maxLen int, tier string) kit.Case {
+	if r.Chance(3) {
+		return genWatcher(r.Fork(), tier)
+	}
 	dep := "prefix"
 	if r.Chance(35) {
 		dep = "cachecap"
@@ -245,6 +316,10 @@ type runner struct {
 	nonce    int
 	curC     string // tokens last written (for the verdict cache only)
 	curR     string
+	watcher  bool // kind=watcher: reloads come from the real ConfigWatcher's timer
+	ivl      time.Duration
+	cc       *countingConfig
+	ps       *pubsub.LocalPubSub
 }
 
 var caseSeq int64
@@ -261,10 +336,70 @@ func (comp) NewCase(h []string) kit.Runner {
 		r.dep = "prefix"
 	}
 	r.opts = &config.CmdEnv{ConfigLocations: []string{r.cpath}, RulesLocations: []string{r.rpath}}
+	ivlLine = ""
+	if kit.KV(h, "kind") == "watcher" {
+		ms, _ := strconv.Atoi(kit.KV(h, "ivl"))
+		if ms <= 0 {
+			ms = 200
+		}
+		r.watcher, r.ivl = true, time.Duration(ms)*time.Millisecond
+		ivlLine = fmt.Sprintf("  ConfigReloadInterval: %dms\n", ms)
+	}
 	return r
 }
 
-func (r *runner) Close() { os.RemoveAll(r.dir) }
+func (r *runner) Close() {
+	if r.watcher && r.cc != nil {
+		r.cw.Stop()
+		r.ps.Stop()
+	}
+	ivlLine = ""
+	os.RemoveAll(r.dir)
+}
+
+// countingConfig is the real file config as the watcher sees it, counting the Reload calls the
+// watcher makes (timer ticks and pubsub notices) and how many of them returned an error.
+type countingConfig struct {
+	config.Config
+	calls, failed atomic.Int64
+}
+
+func (c *countingConfig) Reload(opts ...config.ReloadedConfigDataOption) error {
+	err := c.Config.Reload(opts...)
+	if err != nil {
+		c.failed.Add(1)
+	}
+	c.calls.Add(1)
+	return err
+}
+
+func (r *runner) appliedPair() string {
+	ch, rh := r.cfg.GetHashes()
+	return r.tok(ch) + "/" + r.tok(rh)
+}
+
+func (r *runner) countsSnapshot() []int64 {
+	out := make([]int64, len(r.counts))
+	for i, c := range r.counts {
+		out[i] = atomic.LoadInt64(c)
+	}
+	return out
+}
+
+// pollUntil polls cond every few milliseconds for at most max (a bound on how long a failure costs,
+// not a pass criterion).
+func pollUntil(max time.Duration, cond func() bool) bool {
+	deadline := time.Now().Add(max)
+	for {
+		if cond() {
+			return true
+		}
+		if time.Now().After(deadline) {
+			return false
+		}
+		time.Sleep(5 * time.Millisecond)
+	}
+}
 
 func (r *runner) write(path string, data []byte, ok bool, tok string) {
 	if !ok {
@@ -305,7 +440,7 @@ func errClass(err error) string {
 var verdictCache = map[string]string{}
 
 func (r *runner) startupVerdict() string {
-	key := r.dep + "|" + r.ver + "|" + r.curC + "|" + r.curR
+	key := ivlLine + "|" + r.dep + "|" + r.ver + "|" + r.curC + "|" + r.curR
 	if v, ok := verdictCache[key]; ok && r.curC != "" && r.curR != "" {
 		return v
 	}
@@ -386,7 +521,19 @@ func (r *runner) Do(op []string) (string, bool) {
 		}
 		r.cfg = c
 		r.lg = &logger.MockLogger{}
-		r.cw = &configwatcher.ConfigWatcher{Config: c, Logger: r.lg, Tracer: noop.NewTracerProvider().Tracer("verif")}
+		if r.watcher {
+			// wired as cmd/refinery wires it: the file config, a LocalPubSub, the ConfigWatcher
+			// started (its monitor goroutine ticks on real time, there is no clock to inject there)
+			r.cc = &countingConfig{Config: c}
+			r.ps = &pubsub.LocalPubSub{Config: c}
+			r.ps.Start()
+			r.cw = &configwatcher.ConfigWatcher{Config: r.cc, PubSub: r.ps, Logger: r.lg}
+			if err := r.cw.Start(); err != nil {
+				panic(err)
+			}
+		} else {
+			r.cw = &configwatcher.ConfigWatcher{Config: c, Logger: r.lg, Tracer: noop.NewTracerProvider().Tracer("verif")}
+		}
 		for i := 0; i < r.ls; i++ {
 			r.addListener()
 		}
@@ -423,6 +570,46 @@ func (r *runner) Do(op []string) (string, bool) {
 			}
 			return r.state(su, e), true
 		}
+	case "await":
+		// the watcher's own timer must bring the running config to the content on disk
+		if r.cfg == nil || !r.watcher {
+			return "nostart", true
+		}
+		su := r.startupVerdict()
+		want := r.curC + "/" + r.curR
+		before := r.countsSnapshot()
+		changed := r.appliedPair() != want
+		calls0 := r.cc.calls.Load()
+		if changed {
+			pollUntil(8*time.Second, func() bool { return r.appliedPair() == want })
+			// every listener told (callbacks run right after the assignment)
+			pollUntil(2*time.Second, func() bool {
+				for i, c := range r.countsSnapshot() {
+					if c <= before[i] {
+						return false
+					}
+				}
+				return true
+			})
+			calls0 = r.cc.calls.Load()
+		}
+		// let two more reload calls go by so that a second notification would show
+		pollUntil(3*time.Second, func() bool { return r.cc.calls.Load() >= calls0+2 })
+		return r.state(su, "-"), true
+	case "hold":
+		// content that startup rejects is on disk: let the watcher tick over it several times
+		if r.cfg == nil || !r.watcher {
+			return "nostart", true
+		}
+		su := r.startupVerdict()
+		f0 := r.cc.failed.Load()
+		// three failed reloads: one more than a late pubsub-triggered reload plus one tick could give
+		ok := pollUntil(10*time.Second, func() bool { return r.cc.failed.Load() >= f0+3 })
+		t := "ok"
+		if !ok {
+			t = "few"
+		}
+		return r.state(su, "-") + " ticks=" + t, true
 	case "stress":
 		if r.cfg == nil {
 			return "nostart", true
